@@ -22,7 +22,7 @@ from curies.discovery import discover  # noqa: E402
 INPUTS = [
     [mrec("a", "x/", ["a1"], ["x1/"]), mrec("b", "y/", ["b1"])],
     [mrec("a", "z/")],
-    [mrec("a", "x/", [], ["z/"])],
+    [mrec("a", "x/", ["k2", "k1"], ["z/", "y9/"])],   # synonym lists in priority order, not alphabetical
     [mrec("A", "X/", ["q"])],
     [mrec("c", "w/", [], [], "^1$"), mrec("b1", "v/")],
     [mrec("", "d/", ["dd"])],
